@@ -1730,6 +1730,21 @@ impl<'a> Socket<'a> {
             // In LISTEN and SYN-SENT states, we have not yet synchronized with the remote end.
             State::Listen | State::SynSent => (&[][..], 0),
             _ => {
+                // A reset is judged by its sequence number alone (RFC 9293 3.10.7.4, RFC 5961 3.2):
+                // data it carries that happens to reach into the window does not make acceptable
+                // a reset that starts below it.
+                if repr.control == TcpControl::Rst {
+                    let in_window = if window_start == window_end {
+                        segment_start == window_start
+                    } else {
+                        window_start <= segment_start && segment_start < window_end
+                    };
+                    if !in_window {
+                        net_debug!("dropping out-of-window RST");
+                        return None;
+                    }
+                }
+
                 // https://www.rfc-editor.org/rfc/rfc9293.html#name-segment-acceptability-tests
                 let segment_in_window = match (
                     segment_start == segment_end,
